@@ -24,7 +24,9 @@
  *   ctx 4..6   "encoding group": rate R, amp A, mono M: 16-bit unsigned, 8-bit signed, 8-bit unsigned
  *   ctx 7      rate R, amp A, 16-bit signed, mono flag flipped
  *   ctx 8..    free configurations: random rate 4000..49170, any of the 8 formats, interpolator,
- *              amp 0..3, mix -100..100, master volume 0..200, dsp; changed again at random frames
+ *              amp 0..3, mix -100..100, master volume 0..200, effects-mixer volume 0..200, dsp; changed again at random
+ *              frames.  ctx 8 has master volume 0 for the whole case, ctx 9 has channels muted (xmp_channel_mute; one case
+ *              in four: all of them) and per-channel volumes (xmp_channel_vol): the volume settings at their extremes
  *   (R, M, A, interpolator, mix, volume, dsp of the groups are random per case)
  *
  * Oracle, per frame:
@@ -58,6 +60,9 @@
 
 struct cfg {
 	int rate, fmt, interp, amp, mix, vol, dsp;
+	int smix;			/* XMP_PLAYER_SMIX_VOLUME */
+	unsigned long long mute;	/* channels muted through xmp_channel_mute */
+	int chvol;			/* != 0: xmp_channel_vol(ch, (ch * chvol) % 101) on every channel */
 };
 
 struct op {
@@ -93,6 +98,18 @@ static void apply_cfg(xmp_context c, const struct cfg *k)
 	xmp_set_player(c, XMP_PLAYER_MIX, k->mix);
 	xmp_set_player(c, XMP_PLAYER_VOLUME, k->vol);
 	xmp_set_player(c, XMP_PLAYER_DSP, k->dsp);
+	xmp_set_player(c, XMP_PLAYER_SMIX_VOLUME, k->smix);
+}
+
+/* per-channel volume settings: mutes and channel volumes */
+static void apply_chan(xmp_context c, const struct cfg *k)
+{
+	int ch;
+	for (ch = 0; ch < XMP_MAX_CHANNELS; ch++) {
+		xmp_channel_mute(c, ch, (int)((k->mute >> ch) & 1));
+		if (k->chvol)
+			xmp_channel_vol(c, ch, (ch * k->chvol + 7) % 101);
+	}
 }
 
 static const double tf_vals[] = { 0.25, 0.5, 0.8, 1.5, 2.0, 3.0, 4.0, 6.0, 8.0 };
@@ -269,7 +286,8 @@ static int run_case(const char *path, const unsigned char *data, long size, uint
 	int bpmmin = 1 << 30;
 	double tfmax = 0;
 	int slow;
-	int lastrow = -1, lastpos = -1, maxloop = 0;
+	int lastrow = -1, lastpos = -1, maxloop = 0, lastbpm = -1;
+	long bpmchg = 0;
 	long fails_before = n_fail;
 
 	vrng_seed(cseed);
@@ -317,6 +335,9 @@ static int run_case(const char *path, const unsigned char *data, long size, uint
 	k[0].mix = vrng_chance(30) ? 100 : vrng_range(-100, 100);
 	k[0].vol = vrng_chance(40) ? 100 : vrng_range(0, 200);
 	k[0].dsp = vrng_chance(70) ? XMP_DSP_LOWPASS : 0;
+	k[0].smix = 100;
+	k[0].mute = 0;
+	k[0].chvol = 0;
 	for (i = 1; i < NGROUP; i++)
 		k[i] = k[0];
 	for (i = 0; i < 4; i++)
@@ -334,7 +355,15 @@ static int run_case(const char *path, const unsigned char *data, long size, uint
 		k[i].mix = vrng_range(-100, 100);
 		k[i].vol = vrng_range(0, 200);
 		k[i].dsp = vrng_range(0, 1);
+		k[i].smix = vrng_chance(50) ? 100 : vrng_range(0, 200);
+		k[i].mute = 0;
+		k[i].chvol = 0;
 	}
+	/* volume settings at their extremes: the first free context is silent (master volume 0) for the whole case, the
+	 * second has channels muted and per-channel volumes (sometimes all channels muted, sometimes volume 0 too) */
+	k[NGROUP].vol = 0;
+	k[NGROUP + 1].mute = vrng_chance(25) ? ~0ULL : (vrng_next() | (1ULL << vrng_below(4)));
+	k[NGROUP + 1].chvol = vrng_chance(50) ? vrng_range(1, 100) : 0;
 
 	/* control script */
 	slow = vrng_chance(20);
@@ -394,6 +423,7 @@ static int run_case(const char *path, const unsigned char *data, long size, uint
 			goto out;
 		}
 		apply_cfg(c[i], &k[i]);
+		apply_chan(c[i], &k[i]);
 		printf("cfg %d rate=%d fmt=%d interp=%d amp=%d mix=%d vol=%d dsp=%d\n", i, k[i].rate, k[i].fmt,
 		       k[i].interp, k[i].amp, k[i].mix, k[i].vol, k[i].dsp);
 	}
@@ -474,8 +504,9 @@ static int run_case(const char *path, const unsigned char *data, long size, uint
 			k[i].interp = vrng_range(0, 2);
 			k[i].amp = vrng_range(0, 3);
 			k[i].mix = vrng_range(-100, 100);
-			k[i].vol = vrng_range(0, 200);
+			k[i].vol = i == NGROUP ? 0 : vrng_range(0, 200);
 			k[i].dsp = vrng_range(0, 1);
+			k[i].smix = vrng_range(0, 200);
 			apply_cfg(c[i], &k[i]);
 			reconf++;
 		}
@@ -495,6 +526,9 @@ static int run_case(const char *path, const unsigned char *data, long size, uint
 			rowchg++;
 		if (t[0].pos != lastpos)
 			poschg++;
+		if (lastbpm >= 0 && t[0].bpm != lastbpm)
+			bpmchg++;
+		lastbpm = t[0].bpm;
 		lastrow = t[0].row;
 		lastpos = t[0].pos;
 		if (t[0].loop_count > maxloop)
@@ -615,9 +649,9 @@ static int run_case(const char *path, const unsigned char *data, long size, uint
 	}
 	for (i = 0; i < NCTX; i++)
 		xmp_end_player(c[i]);
-	printf("stat frames=%d rowchg=%ld poschg=%ld loops=%d nonsilent=%ld clipped=%ld samples=%ld opok=%ld reconf=%ld novoice=%ld clampticks=%ld tfroll=%ld slow=%d bpmmin=%d tfmax=%d tfprobes=%ld tfcalls=%ld tfaccept=%ld tfrefuse=%ld tfpairs=%ld setprobes=%ld fails=%ld\n",
+	printf("stat frames=%d rowchg=%ld poschg=%ld loops=%d nonsilent=%ld clipped=%ld samples=%ld opok=%ld reconf=%ld novoice=%ld clampticks=%ld tfroll=%ld slow=%d bpmmin=%d tfmax=%d tfprobes=%ld tfcalls=%ld tfaccept=%ld tfrefuse=%ld tfpairs=%ld setprobes=%ld bpmchg=%ld fails=%ld\n",
 	       played, rowchg, poschg, maxloop, nonsilent, clipped, samples_cmp, opok, reconf, novoice, clampedf, tfroll, slow, bpmmin, (int)tfmax,
-	       tfprobes, n_tf_calls, n_tf_accept, n_tf_refuse, n_tf_samerate_pairs, setprobes, n_fail - fails_before);
+	       tfprobes, n_tf_calls, n_tf_accept, n_tf_refuse, n_tf_samerate_pairs, setprobes, bpmchg, n_fail - fails_before);
     out:
 	printf("end\n");
 	for (i = 0; i < NCTX; i++) {
